@@ -312,6 +312,33 @@ def from_nested(data, dtype=None, kind="torch"):
     return STensor(shape, dtype, fn=fn, kind=kind)
 
 
+def from_flat(shape, data, dtype, kind="torch"):
+    """Concrete tensor from a flat row-major list (keeps the shape of empty tensors)."""
+    shape = list(shape)
+    strides = []
+    acc = 1
+    for d in reversed(shape):
+        strides.append(acc)
+        acc *= d
+    strides = list(reversed(strides))
+    data = [cast_scalar(v, dtype) for v in data]
+
+    def fn(idx):
+        if all(isinstance(i, int) for i in idx):
+            off = sum(i * s for i, s in zip(idx, strides))
+            return data[off]
+        # symbolic index into concrete data: ite chain over the flat offset
+        off = 0
+        for i, s in zip(idx, strides):
+            off = i_add(off, i_mul(i, s))
+        r = data[-1] if data else cast_scalar(0, dtype)
+        for j in range(len(data) - 2, -1, -1):
+            r = ite(i_eq(off, j), data[j], r)
+        return r
+
+    return STensor(shape, dtype, fn=fn, kind=kind)
+
+
 def _ite_chain(data, idx):
     def rec(x, k):
         if k == len(idx):
@@ -640,6 +667,9 @@ def _infer_minus_one(src_shape, target):
                 raise PyExc("RuntimeError", ("shape invalid for input size",))
             target[k] = total // rp
         else:
+            # torch: "cannot reshape tensor of 0 elements into shape [.., -1, ..] because the
+            # unspecified dimension size -1 can be any value and is ambiguous"
+            ctx.cur().require(b_not(i_eq(rp, 0)), "RuntimeError", "reshape: -1 is ambiguous for a tensor of 0 elements")
             # try structural cancellation: remove matching factors
             src_f = [d for d in src_shape if not (conc(d) and d == 1)]
             rest_f = [d for d in rest if not (conc(d) and d == 1)]
